@@ -642,7 +642,8 @@ class TerminalTreeToPattern(Transformer_NonRecursive):
         if len(items) == 1:
             return items[0]
 
-        pattern = ''.join(i.to_regexp() for i in items)
+        # Each regexp is a unit of its own: without the group, /a|b/ "c" would read as a|bc
+        pattern = ''.join('(?:%s)' % i.to_regexp() if isinstance(i, PatternRE) else i.to_regexp() for i in items)
         return _make_joined_pattern(pattern, {i.flags for i in items})
 
     def expansions(self, exps: List[Pattern]) -> Pattern:
